@@ -40,6 +40,7 @@ typedef struct {
     int      nthreads_icv;           /* initial nthreads-var (as OMP_NUM_THREADS / #cores would set it) */
     int      max_active_levels;      /* nesting ICV, libgomp default 1 */
     int      thread_limit;           /* team sizes are clipped to this (>=1) */
+    int      team_fail_above;        /* a team request above this cannot be started by the runtime (thread creation failure); 0 = never */
     uint32_t p_defer;                /* /65536: deferred task is queued instead of run at once */
     uint32_t p_switch;               /* /65536: at a scheduling point, leave the current thread */
     uint32_t p_hook_yield;           /* /65536: hook events are scheduling points with this probability */
